@@ -85,6 +85,20 @@ def ratios(level=1):
     return sorted(s, key=lambda f: (max(abs(f.numerator), f.denominator).bit_length(), abs(f), f < 0))
 
 
+def rounding_ties():
+    """rationals at and next to a rounding tie at every magnitude: k + 1/2 for even and odd k (fixnum, boundary, one-,
+    two- and more-limb), and their neighbours k + 1/2 +- 1/d"""
+    s = set()
+    for b in (0, 1, 2, 3, 2 ** 31, 2 ** 61, 2 ** 62 - 2, 2 ** 62 - 1, 2 ** 62, 2 ** 62 + 1, 2 ** 63 - 1, 2 ** 63, 2 ** 63 + 1,
+              2 ** 64 - 1, 2 ** 64, 2 ** 64 + 1, 10 ** 19, 10 ** 19 + 1, 2 ** 127 - 1, 2 ** 127, 2 ** 128 + 1, 10 ** 30, 10 ** 30 + 1):
+        for k in (b, b + 1):
+            for f in (Fraction(2 * k + 1, 2), Fraction(4 * k + 1, 4), Fraction(4 * k + 3, 4), Fraction(6 * k + 2, 6) + Fraction(1, 6),
+                      Fraction(2 * k + 1, 2) + Fraction(1, 2 ** 64 + 1), Fraction(2 * k + 1, 2) - Fraction(1, 2 ** 64 + 1)):
+                s.add(f)
+                s.add(-f)
+    return sorted(s, key=lambda f: (max(abs(f.numerator), f.denominator).bit_length(), abs(f), f < 0))
+
+
 def trunc_div(a, b):
     q = abs(a) // abs(b)
     if (a < 0) != (b < 0):
